@@ -112,6 +112,26 @@ def empty_entry_sites(prog):
     return out
 
 
+def accounting_rollback(prog, fn, callee):
+    """-> (#+1 calls, #-1 calls, traces of error returns that passed a +1 and no -1, #successful returns that passed a -1)"""
+    acct = [c for c in calls_to(fn, callee) if T.const(arg(c, 2)) == 1]
+    un = [c for c in calls_to(fn, callee) if T.const(arg(c, 2)) == -1]
+    ex = absint.Explorer(fn, prog)
+
+    def seen2(node, env, flags):
+        if node in acct:
+            return flags | {"acct"}
+        if node in un:
+            return flags | {"undone"}
+        return flags
+    terms = ex.run([fn.entry_node()], on_node=seen2)
+    leak = [ex.trace(st)[-6:] for (node, env, fl, st) in terms if node.ev and node.ev["e"] == "R" and "acct" in fl and
+            "undone" not in fl and absint._nz(ex.eval(node.ev.get("x"), env))]
+    kept = [1 for (node, env, fl, st) in terms if node.ev and node.ev["e"] == "R" and "undone" in fl and
+            absint._z(ex.eval(node.ev.get("x"), env))]
+    return len(acct), len(un), leak, len(kept)
+
+
 def run(world, rep, tier, only=None):
     dbg = world.program("debugfs")
     efs = world.program("e2fsck")
@@ -234,24 +254,15 @@ def run(world, rep, tier, only=None):
         not any(a in mk.reach_back([r]) for a in acct) for r in refus),
         "retval = EMLINK is not preceded by block/inode accounting")
     # roll-back: an error return after the accounting has passed the inverse accounting
-    inode_acct = [c for c in acct if T.call_names(c.ev["x"])[0] == "ext2fs_inode_alloc_stats2"]
-    inode_un = [c for c in unacct if T.call_names(c.ev["x"])[0] == "ext2fs_inode_alloc_stats2"]
-    ex = absint.Explorer(mk, dbg)
-
-    def seen2(node, env, flags, _a=inode_acct, _u=inode_un):
-        if node in _a:
-            return flags | {"acct"}
-        if node in _u:
-            return flags | {"undone"}
-        return flags
-    terms = ex.run([mk.entry_node()], on_node=seen2)
-    leak = [ex.trace(st)[-6:] for (node, env, fl, st) in terms if node.ev and node.ev["e"] == "R" and "acct" in fl and
-            "undone" not in fl and absint._nz(ex.eval(node.ev.get("x"), env))]
-    undone_ok = [1 for (node, env, fl, st) in terms if node.ev and node.ev["e"] == "R" and "undone" in fl and
-                 absint._z(ex.eval(node.ev.get("x"), env))]
-    rep.ob("C10.d", site(mk, "accounting rolled back on every failure after it"), not leak,
-           "error returns after alloc_stats(+1) without alloc_stats(-1): %s" % leak[:2])
-    rep.ob("C10.d", site(mk, "accounting kept on success"), not undone_ok, "no successful return passes the roll-back")
+    # (path-sensitive on constants: a clean-up keyed on a flag or a bit mask is followed through its values)
+    for (cfn, cfile) in (("ext2fs_mkdir", "lib/ext2fs/mkdir.c"), ("ext2fs_symlink", "lib/ext2fs/symlink.c")):
+        cf = dbg.fn(cfn, cfile)
+        for callee, what in (("ext2fs_inode_alloc_stats2", "inode"), ("ext2fs_block_alloc_stats2", "block")):
+            n_a, n_u, leak, kept = accounting_rollback(dbg, cf, callee)
+            rep.floor("C10.d %s accounting and its inverse in %s" % (what, cfn), min(n_a, n_u), 1)
+            rep.ob("C10.d", site(cf, "%s accounting rolled back on every failure after it" % what), not leak,
+                   "error returns after %s(+1) without %s(-1): %s" % (callee, callee, leak[:2]))
+            rep.ob("C10.d", site(cf, "%s accounting kept on success" % what), not kept, "no successful return passes the roll-back")
 
     # ------------------------------------------------------------------ C10.h a new object's block is accounted before its name is linked
     # (shared with C09.h) linking a name can split an htree leaf or grow the directory, which allocates from the same
